@@ -446,6 +446,15 @@ theorem xstep_sound {f : Nat} {st st' : XSt α} {op : XOp α} {o : Obs α} (hp :
       (fun it ht => ⟨by simp [XIt.teeFree, ht], rfl⟩) hx
   | map i g => exact wrap i (.map g) (mapE g) (fun it ht => ⟨ht, rfl⟩) hx
   | filter i p => exact wrap i (.filter p) (filterE p) (fun it ht => ⟨ht, rfl⟩) hx
+  | nextAttr i =>
+    simp only [xstep] at hx
+    simp only [xspecStep]
+    cases hi : st.pool[i]? with
+    | none => simp [hi] at hx; obtain ⟨rfl, rfl⟩ := hx; simp [dens, hi]; exact hp
+    | some x =>
+      cases x with
+      | none => simp [hi] at hx; obtain ⟨rfl, rfl⟩ := hx; simp [dens, hi]; exact hp
+      | some it => simp [hi] at hx; obtain ⟨rfl, rfl⟩ := hx; simp [dens_get hi]; exact hp
   | attr i g =>
     simp only [xstep] at hx
     simp only [xspecStep]
